@@ -216,7 +216,9 @@ def exHist : List Call :=
   [.frame noEff noEff, .frame noEff noEff, .ctl (.setPos 0), .ctl (.setPos 1), .frame exEff noEff,
    .ctl (.seek 8000), .frame noEff noEff, .ctl .stop, .frame noEff noEff]
 
--- EXAMPLE_PLACEHOLDER
+example : ((frames exMod exStart exHist).map fun s => (s.pos, s.row, s.frame, s.speed)) =
+    [(0, 0, 0, 6), (0, 0, 1, 6), (1, 0, 0, 3), (1, 0, 1, 3)] := by
+  decide
 
 end Xmp.Seq
 
